@@ -190,3 +190,31 @@ def stale_reads(g, variant):
                 if w.node in succ_reachable(g, [w2.node]):
                     out.append((w, w2, r))
     return out
+
+
+def rejecting_edges(g):
+    """primary guard edges after which no success exit is reachable although the opposite edge(s) of the same branch can
+    still succeed: the input-dependent reasons for which the entry point refuses a call.  Propagation edges
+    (ok/err/Continue/Break, constants, loop plumbing on tracked tags) are not primary."""
+    oks = set(g.ok_exit_sids())
+    out = []
+    by_node = {}
+    for gd in guard_edges(g):
+        by_node.setdefault((gd.ctx.id, gd.bb), []).append(gd)
+    for node, gds in by_node.items():
+        if len(gds) < 2:
+            continue
+        alive = {}
+        for gd in gds:
+            alive[gd.label] = bool(g.states_after_edges([gd.edge]) & oks)
+        if not any(alive.values()) or all(alive.values()):
+            continue
+        for gd in gds:
+            if alive[gd.label]:
+                continue
+            if gd.cond[0] in ('ok', 'err', 'is', 'isnot', 'isnot_any', 'discr_eq', 'const', 'int_not_in'):
+                continue
+            if gd.cond[0] in ('true', 'false') and isinstance(gd.cond[1], tuple) and gd.cond[1][0] == 'phi':
+                continue        # && / || plumbing temporaries
+            out.append(gd)
+    return out
